@@ -71,7 +71,8 @@ package nodeutil
 
 // ---- C15: per-format rendering of one value (the closure writeValue hands to val.Reduce) -------------------------
 // what is pinned down: which writer call renders each format — quoted and escaped (writeString) for strings, binary,
-// bits, identityrefs and enum labels; the literal [null] for an empty leaf; never a raw, unquoted copy of a string
+// bits, identityrefs and enum labels; the literal [null] for an empty leaf; never a raw, unquoted copy of a string;
+// a decimal64 in the shortest form that reads back as the same float64 (precision -1, 64 bit)
 // the quoting writer of the JSON writer: the string goes through the escaper above (escapeHTML on), and what reaches
 // the output stream is the escaper's buffer — nothing is written raw
 //@ extern bytes.NewBuffer(buf []byte) *bytes.Buffer
@@ -111,6 +112,7 @@ package nodeutil
 //@   maypanic
 //@   requires wtr != nil && item != nil && fmtOfV(item) != val.FmtAny
 //@   callsite WriteString: dyn(item) == val.NotEmptyType ==> arg0 == "[null]"
+//@   callsite FormatFloat: arg2 == -1 && arg3 == 64
 //@   callsite WriteString: dyn(item) != val.String && dyn(item) != val.Binary && dyn(item) != val.Bits && dyn(item) != val.IdentRef
 
 // ---- C04 / C15: module-qualified member names — the reader looks a member up under the module the writer uses -------
